@@ -60,6 +60,14 @@ def main(argv=None):
 def do_replay(prop, a):
     with open(a.replay) as f:
         rp = json.load(f)
+    if rp.get('kind') == 'extra_checks':
+        ev, _ = prop.extra_checks('thorough', 0)
+        for v in ev:
+            print(json.dumps(v))
+        if ev:
+            print(f'VIOLATION property={prop.ID} replay={a.replay}')
+            return 1
+        return 0
     res = R.replay_once(prop, rp['case'], rp['sched'])
     if res is None:
         print('HARNESS-ERROR replay crashed')
